@@ -132,16 +132,28 @@ def _lambert(r0, r1, duration, mu, prograde=True):
 
     # This dichotomy should better be rewritten, with an efficient
     # numpy-friendly implementation
+    z_low = -np.inf
     while _F(nr0, nr1, A, z, duration, mu) < 0:
         # z += 0.01
+        z_low = z
         z += 0.05
+    z_high = z if z_low > -np.inf else np.inf
 
     tol = 1e-8
     nmax = 5000
     ratio = 1
 
     for n in range(nmax):
-        ratio = _F(nr0, nr1, A, z, duration, mu) / _dF(nr0, nr1, A, z)
+        F_z = _F(nr0, nr1, A, z, duration, mu)
+        if F_z < 0:
+            z_low = z
+        else:
+            z_high = z
+        ratio = F_z / _dF(nr0, nr1, A, z)
+        if not z_low <= z - ratio <= z_high:
+            # Newton step leaving the bracket [z_low, z_high] (F changes sign
+            # in it): bisect instead, otherwise y(z) may become negative
+            ratio = z - (z_low + z_high) / 2
         z -= ratio
         if abs(ratio) < tol:
             break
